@@ -80,6 +80,8 @@ for nm, op in TOPS:
                 TUPLE.append(TU(nm, op, nlen, ix))
         else:
             TUPLE.append(TU(nm, op, nlen))
+TUPLE += [TU("iter_dup", "OP_ITER", 2, known={"forward iteration: exactly len items": "tuple-cursor-by-identity", "backward iteration: the same items in reverse order": "tuple-cursor-by-identity"})]
+TUPLE[-1].defs.append("DUP")
 TUPLE += [TU("rem_calls", "OP_REM_CALLS", n_, replace_calls=["Tuple_Pop_At:verif_pop_at_stub"]) for n_ in range(0, 4)]
 def LI(name, op, nlen, mlen=None, **kw):
     us = ["Type_Scan.0:40", "Type_Scan.1:40", "strcmp.0:26", "node_index.0:10", "pool_calloc.0:10", "pool_live_count.0:10", "owns.0:26", "owns.1:12", "owns.2:12", "elem_live_count.0:26",
